@@ -7,7 +7,7 @@ From Coq Require Import Reals.
 From Coquelicot Require Import Coquelicot.
 From Coq Require Import Sorted Lra.
 From Exmex.Spec Require Import RefSem.
-From Exmex.Proofs Require Import Vars DeepSem DeepSubs C11Main DeepOps NormalForm Hereditary ConvertCompose RuleAnalysis RealCarrier CalcSem Dual PartialCorrect PartialMain FlatPartial.
+From Exmex.Proofs Require Import Vars DeepSem DeepSubs C11Main DeepOps NormalForm Hereditary ConvertCompose RuleAnalysis RealCarrier CalcSem Dual PartialCorrect PartialRuled RemoveLoop PartialTotal PartialMain FlatPartial.
 Import ListNotations.
 Open Scope nat_scope.
 
@@ -29,10 +29,11 @@ Open Scope nat_scope.
    make_partial_derivative_ops reports on THIS run; (2) the non-differentiable default operators have no rule; (3) in
    the default mode a binary operator without a rule makes the reduction step fail with an error; (4) every rule,
    computed in the free term algebra and read over the reals, is the derivative of its operator.
+   SUCCESS AND FAILURE: C05_differentiation_succeeds (every data type: on expressions over operators with rules the result is
+   an expression or the 0^0 error, never a panic) and C05_success_means_every_operator_has_a_rule (an operator without a
+   rule anywhere makes differentiation fail).
    Not in the theorems: that the implementation is the model (correspondence of this check, on the free term algebra,
-   exactly, plus central differences); floating-point rounding; that partial_deepex SUCCEEDS on every expression over
-   differentiable operators (an example is computed below; success on generated expressions is observed by the
-   correspondence). *)
+   exactly, plus central differences); floating-point rounding. *)
 Theorem C05_rule_names_match_code_partial :
   map (fun r => (fst (fst r), match snd (fst r) with Some _ => true | None => false end, match snd r with Some _ => true | None => false end)) rule_table
   = partial_rule_names.
@@ -137,6 +138,48 @@ Theorem C05_derivatives_qualify :
   built e -> vi < length (dvars e) -> partial_deepex Rc RDC float_table fuel vi e MError = Ok d -> built d.
 Proof. exact partial_built. Qed.
 
+(* an operator without a derivative rule makes differentiation fail: for every data type and table, if partial_deepex
+   (default mode) returns an expression for a structurally well-formed deep expression, then every binary and every unary
+   operator recorded anywhere in that expression has a rule (so abs, min, floor, ... anywhere in it give an error) *)
+Theorem C05_success_means_every_operator_has_a_rule :
+  forall (D : Type) (C : carrier D) (DC : dcarrier D) (tb : optable) (okop : dbop -> Prop) (okvar : nat -> str -> Prop) (okvars : list str -> Prop)
+         (vi fuel : nat) (e d : deepex D),
+  dwf okop okvar okvars e -> partial_deepex C DC tb fuel vi e MError = Ok d -> ruled tb e.
+Proof. intros D C DC tb okop okvar okvars vi. exact (partial_ok_ruled C DC tb okop okvar okvars vi). Qed.
+
+(* ... and conversely differentiation SUCCEEDS on expressions over operators with rules: for every data type (any carrier
+   with any equality test and constants) and the default table, on every deep expression as the constructors build it
+   (operand counts, operators of the table, names within the variable lists at every level) all of whose operators have
+   rules, partial_deepex with fuel beyond the nesting depth (partial_iter passes depth + 2) returns an expression, closed
+   under its variable list, or the documented error of the power shortcut for 0^0 -- never a panic, never another error *)
+Theorem C05_differentiation_succeeds :
+  forall (D : Type) (C : carrier D) (DC : dcarrier D) (vi : nat) (okvar : nat -> str -> Prop) (okvars : list str -> Prop)
+         (fuel : nat) (e : deepex D),
+  ddepth e < fuel -> dwf (tflagged float_table) okvar okvars e -> hc e -> ruled float_table e ->
+  match partial_deepex C DC float_table fuel vi e MError with
+  | Ok d => dclosed (tflagged float_table) (dvars d) d
+  | Err err => err = E_POW00
+  | Panic _ => False
+  end.
+Proof. intros D C DC vi okvar okvars fuel e H1 H2 H3 H4. exact (partial_total C DC vi okvar okvars fuel e H1 H2 H3 H4). Qed.
+
+(* hence, over the reals: for every built expression over differentiable operators the derivative exists as an expression
+   (or differentiation reports 0^0) and evaluates to the mathematical derivative *)
+Theorem C05_partial_of_expressions_over_differentiable_operators :
+  forall (e : deepex R) (vi fuel : nat),
+  built e -> ruled float_table e -> vi < length (dvars e) -> ddepth e < fuel ->
+  partial_deepex Rc RDC float_table fuel vi e MError = Err E_POW00 \/
+  exists d, partial_deepex Rc RDC float_table fuel vi e MError = Ok d /\ dvars d = dvars e /\ built d /\
+    forall rho : str -> R, in_domain e vi rho ->
+      is_derive (fun t => dden Rc (nlook (line rho (nth vi (dvars e) nil) t)) e) (rho (nth vi (dvars e) nil)) (dden Rc (nlook rho) d).
+Proof.
+  intros e vi fuel Hb Hr Hvi Hf. pose proof Hb as (Hix & Hh & Hn).
+  pose proof (partial_total Rc RDC vi (indexed (dvars e)) (okl (dvars e)) fuel e Hf Hix Hh Hr) as Ht.
+  destruct (partial_deepex Rc RDC float_table fuel vi e MError) as [d|err|site] eqn:E; cbn [fine] in Ht; [right|left; subst; reflexivity|destruct Ht].
+  exists d. split; [reflexivity|]. destruct (partial_is_derivative e d vi fuel Hb Hvi E) as (H1 & _ & _ & H4).
+  split; [exact H1|]. split; [exact (partial_built e d vi fuel Hb Hvi E)|exact H4].
+Qed.
+
 (* FLAT expressions (Differentiate::partial on FlatEx = to_deepex, partial, compile, from_deepex): for every flat expression
    the conversions accept (flat_ok: what the flat parser builds from any accepted token list, C03) with a sorted variable
    list, if differentiation succeeds the result has the same variables and evaluates to the derivative of the flat
@@ -187,3 +230,6 @@ Print Assumptions C05_parsed_expressions_qualify.
 Print Assumptions C05_consistent_expressions_qualify.
 Print Assumptions C05_derivatives_qualify.
 Print Assumptions C05_flat_partial_is_the_derivative.
+Print Assumptions C05_success_means_every_operator_has_a_rule.
+Print Assumptions C05_differentiation_succeeds.
+Print Assumptions C05_partial_of_expressions_over_differentiable_operators.
